@@ -518,7 +518,16 @@ fn run_workload(plan: &Plan, w: &Workload, run_index: u64, seed: u64, cov: &mut 
     // skipped and counted instead of paying that cost once per schedule. The criterion is a
     // function of the emitted bytes only, so it is deterministic.
     let rest = plans.split_off(1);
-    let single = execute_batch(w, &data, plans, run_index, false).pop().expect("single result");
+    // C14P: the reference is the single-thread encode of the same audio delivered as integers only
+    // (same read lengths), whatever representation the multi-thread runs receive.
+    let wref = if plan.prop == "C14P" {
+        let mut x = w.clone();
+        x.delivery = 0;
+        x
+    } else {
+        w.clone()
+    };
+    let single = execute_batch(&wref, &data, plans, run_index, false).pop().expect("single result");
     cov.absorb(w, whash, &uni, &single, Mode::Single);
     if let Ok(b) = &single.outcome.result {
         let raw = w.total_samples() * w.channels * w.bytes_per_sample();
@@ -586,7 +595,7 @@ fn run_workload(plan: &Plan, w: &Workload, run_index: u64, seed: u64, cov: &mut 
                         (Ok(a), Ok(b)) => first_diff(a, b),
                         (a, b) => format!("par {} vs single {}", res_summary(a), res_summary(b)),
                     };
-                    violation(pctx, if plan.prop == "C10P" { "history_dependent_result" } else { "bytes_mismatch_par_vs_single" }, d);
+                    violation(pctx, match plan.prop.as_str() { "C10P" => "history_dependent_result", "C14P" => "delivery_mode_mismatch", _ => "bytes_mismatch_par_vs_single" }, d);
                 }
             }
             "C03" => {
